@@ -145,6 +145,16 @@ def y6(ctx, F):
               expected="Vec::push (or a fixed list of at least 512 entries, pushed infallibly)",
               found={"appends": [c["name"] for c in apps], "type": fty})
     history_plays_and_records(ctx, F, "C20.Y6")
+    # the game that `show` depicts is the game of the session as the commands left it: nothing that runs in between (a search) may
+    # leave moves played on it (C03.S2, the push/pop pairing of every function that plays moves)
+    from . import p03
+    before, nv = len(ctx.instances), len(ctx.violations)
+    p03.s2(ctx, F)
+    for i in ctx.instances[before:]:
+        i["rule"] = "C20.Y8(" + i["rule"] + ")"
+    for v in ctx.violations[nv:]:
+        v["rule"] = "C20.Y8(" + v["rule"] + ")"
+        v["key"] = "C20.Y8|" + v["key"]
     before, nv = len(ctx.instances), len(ctx.violations)
     p04.rule_k5(ctx, F)
     p04.rule_k6(ctx, F, parts=("rank", "slots", "final", "side"))
